@@ -51,11 +51,13 @@ def gen_perms(rng, tier, seed):
                 descs.append({'uuid': '%04X' % (0xF800 + n), 'perms': rng.randrange(256), 'value': _canary(n, rng.choice([8, 12, 30]))})
             # some characteristics of a service share their UUID (a Read By Type over the range then meets several of them)
             cu = chars[-1]['uuid'] if chars and rng.random() < 0.3 else '%04X' % (0xF400 + n)
-            props = 0x0A
-            if rng.random() < 0.25:
+            # declared properties do not gate access (the permissions do): notify-only, read-only and write-only characteristics
+            # carry requirements like any other
+            props = rng.choice([0x0A, 0x0A, 0x0A, 0x10, 0x20, 0x02, 0x08, 0x12])
+            if props & 0x30 == 0 and rng.random() < 0.25:
                 # the application declares the Client Characteristic Configuration descriptor itself, with requirements of its own
                 n += 1
-                props = 0x1A
+                props |= 0x10
                 descs.append({'uuid': '2902', 'perms': rng.randrange(256), 'value': _canary(n, 8)})
             chars.append({'uuid': cu, 'props': props, 'perms': rng.randrange(256), 'value': _canary(n + 500, rng.choice([8, 10, 20, 30, 100, 300])),
                           'kind': rng.choice(['static', 'static', 'sync_cb', 'async_cb']), 'delay': rng.choice([0.0, 0.001]), 'descs': descs})
